@@ -46,7 +46,7 @@ def val_text(v):
     return v
 
 
-def render_c(items, seed=0, fortran=False, uid="x", plain=False, drop=(), xstr=False):
+def render_c(items, seed=0, fortran=False, uid="x", plain=False, drop=(), xstr=False, dotted=False):
     """
     Returns (text, lines_of_item) where lines_of_item[i] (0-based item index) is the list of
     physical line numbers (1-based) that the item contributes as counted lines.
@@ -121,7 +121,10 @@ def render_c(items, seed=0, fortran=False, uid="x", plain=False, drop=(), xstr=F
         elif k == "undef":
             txt = f"undef {it['m']}"
         elif k == "include":
-            txt = f'include "{it["name"]}"' if it["form"] == "q" else f"include <{it['name']}>"
+            nm = it["name"]
+            if dotted and rnd.random() < 0.35:
+                nm = "./" + nm                 # the same file, named with a dot component
+            txt = f'include "{nm}"' if it["form"] == "q" else f"include <{nm}>"
         elif k == "includem":
             txt = f"include {it['m']}"
         elif k == "once":
